@@ -311,6 +311,9 @@ def intensified_search(prop, suites, seed, tier, broken_corr, budget=None):
                         return su, c2, r2, vs[0]
                     if time.time() > t_end:
                         return None
+        modes = [suite_result(su, seed, tier)["cases"][d["case"]].get("mode") for s2, d in broken_corr
+                 if s2 is su and d.get("case") is not None and isinstance(suite_result(su, seed, tier)["cases"][d["case"]], dict)]
+        su.search_modes = [m for m in modes if m] or None
         k = 0
         while time.time() < t_end:
             k += 1
